@@ -38,6 +38,7 @@ import (
 	"github.com/dolthub/dolt/go/libraries/doltcore/dconfig"
 	dherrors "github.com/dolthub/dolt/go/libraries/utils/errors"
 	"github.com/dolthub/dolt/go/libraries/utils/file"
+	"github.com/dolthub/dolt/go/libraries/utils/verifhook"
 	"github.com/dolthub/dolt/go/store/chunks"
 	"github.com/dolthub/dolt/go/store/hash"
 	"github.com/dolthub/dolt/go/store/util/tempfiles"
@@ -290,6 +291,7 @@ func (ftp *fsTablePersister) writeAndProtect(finalName string, writeFn func(temp
 		_ = file.Remove(tempName)
 		return nil, err
 	}
+	verifhook.At("persist.afterRename")
 	return ftp.addPending(addr), nil
 }
 
